@@ -315,6 +315,17 @@ Fixpoint write_from (penc : blk -> option str) (st : wstate) (bs : list blk) : w
 Definition write_all (penc : blk -> option str) (bs : list blk) : str * wres :=
   let '(st, r) := write_from penc (mkW false []) bs in (w_out st, r).
 
+(* the same writer used for every block of the sequence, whatever the earlier calls returned:
+   the bytes produced and the result of each call *)
+Fixpoint write_cont (penc : blk -> option str) (st : wstate) (bs : list blk) : wstate * list bool :=
+  match bs with
+  | [] => (st, [])
+  | b :: r =>
+      let '(st', res) := writer_write penc st b in
+      let '(st'', oks) := write_cont penc st' r in
+      (st'', (match res with WOk => true | WErr => false end) :: oks)
+  end.
+
 (* what reading a correctly written file of bs must deliver: the blocks after the legacy
    upgrade, up to the first one the reader refuses *)
 Fixpoint decode_run {A T} (dec : A -> option T) (l : list A) : list T * outcome :=
